@@ -10,8 +10,8 @@ git worktree add --detach $WT HEAD >/dev/null 2>&1 || exit 2
 cp -r /repo/target $WT/target 2>/dev/null
 cd $WT
 for id in "$@"; do
- for x in a b; do
-  d=/verif/seeded/_incoming/$id
+ for x in a b c; do
+  d=${INC:-/verif/seeded/_incoming}/$id
   [ -f $d/mutant_$x.diff ] || continue
   out=$d/confirm_$x.txt; : > $out
   git checkout -q -- . ; rm -rf tests
